@@ -6,6 +6,7 @@ import (
 	"strings"
 	"sync"
 	"time"
+	"verif/internal/e2"
 
 	"github.com/aukilabs/hagall-common/messages/hagallpb"
 
@@ -269,6 +270,7 @@ func checkC17(c *check.Ctx) int {
 	c.Coverage["windows_compared"] = compared
 	c.Coverage["events_removed_by_flag_filter"] = suppressed
 	partFlagsRealBinary(c, a)
+	partRegistryUnderFlags(c, a)
 	a.add(done, nontrivial, "E5: one recorded sequential history is executed without flags and again under a flag set (lab SUT, flags per connection); every per-step window under flags must equal the flag-free window minus the classes named by the set flags, and both runs are judged by the flag-aware reference model (state via a flag-free probe); a flag set is distinct by its members and non-trivial when at least one message was actually suppressed and at least one unsuppressed message was still delivered (unknown-name sets: nothing suppressed, something delivered)", samples...)
 	return a.finish(c)
 }
@@ -486,4 +488,55 @@ func contains(l []string, s string) bool {
 		}
 	}
 	return false
+}
+
+// partRegistryUnderFlags: the flags change what is relayed, never what
+// succeeds or what the server holds - also under concurrency. The registry
+// scenarios whose oracles do not look at relays (join answers, probes, gauge,
+// frame workers) are run with all ten DISABLE_* flags set on every harness
+// connection (probes carry none): the gates G1 / G3c and the
+// free-running join-by-id x last-departure race storm.
+func partRegistryUnderFlags(c *check.Ctx, a *acc) {
+	scen.DefaultFlags = strings.Join(flagSubset(1023), ",")
+	defer func() { scen.DefaultFlags = "" }()
+	// (G2 / G3 park the leavers at their leave relay, which does not happen under the leave-broadcast flag)
+	partGated(c, a, []func(*sut.Proc) *e2.Result{e2.G1JoinVsLastLeave, e2.G3cLastLeaveVsCreate}, c.Pick(1, 4))
+	bin, err := c.WS.Build("lab", "plain")
+	if err != nil {
+		c.Inconc("build failed: " + err.Error())
+		return
+	}
+	n := c.Pick(4, 24)
+	var mu sync.Mutex
+	races, accepted, done := 0, 0, 0
+	parallel(n, 4, func(i int) {
+		opts := sut.LabOpts{Name: "flagrace"}
+		if i%2 == 1 {
+			opts.RT = "jitter"
+		}
+		p, err := c.WS.StartLab(bin, opts)
+		if err != nil {
+			c.Inconc(err.Error())
+			return
+		}
+		defer p.Kill()
+		nr, na, fs, inc := e2.JoinLeaveRaceStorm(p, 8, c.Pick(40, 160), c.Seed*37+int64(i))
+		mu.Lock()
+		defer mu.Unlock()
+		done++
+		races += nr
+		accepted += na
+		for _, f := range fs {
+			f.Props = append(f.Props, "C17")
+			f.Trigger += " under all DISABLE_* flags"
+			c.Report(f)
+		}
+		for _, s := range inc {
+			c.Inconc(s)
+		}
+	})
+	c.Coverage["registry_races_under_all_flags"] = races
+	c.Coverage["registry_races_under_all_flags_join_accepted"] = accepted
+	a.add(done, done, "registry under flags: the gated join / last-departure / creation overlaps and the free-running join-by-id x last-departure race storm with all ten DISABLE_* flags set on the racing connections (probes flag-free): join answers, findability, gauge and frame workers must be what they are without flags",
+		map[string]any{"engine": "E2 registry under flags", "races": races, "joins_accepted": accepted})
 }
